@@ -226,6 +226,32 @@ func kStructural(x *vc.Exec, lr *vc.LoadResult, repo string, res *vc.PassResult,
 		}
 	}
 	sink.Structural("internal", "determinism", "no-package-level-state-written", []string{"C17"}, true, fmt.Sprintf("%d functions scanned", len(fns)))
+	// A-slice: the engine gives slices value semantics (append returns a new
+	// value). That is unsound exactly where a re-sliced view x[a:b] of a live
+	// slice is written through (append into its spare capacity, element store,
+	// copy destination). No such write exists in the module; each one found is a
+	// failed frame obligation.
+	nres := 0
+	for _, fn := range fns {
+		for _, b := range fn.Blocks {
+			for _, in := range b.Instrs {
+				sl, ok := in.(*ssa.Slice)
+				if !ok {
+					continue
+				}
+				if _, isSlice := sl.X.Type().Underlying().(*types.Slice); !isSlice {
+					continue
+				}
+				nres++
+				if w := writtenThrough(sl); w != "" {
+					sink.Structural(relName(fn), "frame", "no-write-through-a-resliced-view-of-a-live-slice", []string{"C02", "C10", "C11", "C13", "C14", "C16"}, false,
+						"re-slice at "+pos(sl)+" is "+w+": the write lands in the backing array shared with the original slice")
+				}
+			}
+		}
+	}
+	counts["reslices_of_slices"] = nres
+	sink.Structural("internal", "frame", "no-write-through-a-resliced-view-of-a-live-slice", []string{"C02", "C10", "C11", "C13", "C14", "C16"}, true, fmt.Sprintf("%d re-slice expressions scanned in %d functions", nres, len(fns)))
 	// C20: the source-map flag only selects comment emission
 	checkSourceMapFrame(sink, lr, fns, pos)
 	res.Extra["frame_counts"] = counts
@@ -613,4 +639,57 @@ func boundedBuildTag(sink *vc.Sink, repo string, res *vc.PassResult) {
 	}
 	sink.Structural("internal.writeInvertedCffTag", "bounded", "tag-inversion-flips-cff-for-every-assignment-depth3-3tags", []string{"C16"}, ok, text)
 	res.Extra["bounded"] = []string{"C16 tag inversion: exhaustive over constraint expressions of depth <= 3 over {cff,a,b}, 4 line spellings, 8 assignments, executed on the real writeInvertedCffTag (" + cases + "); not counted as proved"}
+}
+
+// writtenThrough reports how the value of a re-slice expression is written
+// through (following phis, conversions and further re-slices), or "".
+func writtenThrough(root ssa.Value) string {
+	seen := map[ssa.Value]bool{}
+	work := []ssa.Value{root}
+	for len(work) > 0 {
+		v := work[len(work)-1]
+		work = work[:len(work)-1]
+		if seen[v] {
+			continue
+		}
+		seen[v] = true
+		refs := v.Referrers()
+		if refs == nil {
+			continue
+		}
+		for _, r := range *refs {
+			switch r := r.(type) {
+			case *ssa.Phi:
+				work = append(work, r)
+			case *ssa.ChangeType:
+				work = append(work, r)
+			case *ssa.Slice:
+				if r.X == v {
+					work = append(work, r)
+				}
+			case *ssa.IndexAddr:
+				if r.X != v || r.Referrers() == nil {
+					continue
+				}
+				for _, rr := range *r.Referrers() {
+					if st, ok := rr.(*ssa.Store); ok && st.Addr == r {
+						return "stored to by index"
+					}
+				}
+			case ssa.CallInstruction:
+				c := r.Common()
+				if b, ok := c.Value.(*ssa.Builtin); ok && len(c.Args) > 0 && c.Args[0] == v {
+					switch b.Name() {
+					case "append":
+						return "the first argument of append"
+					case "copy":
+						return "the destination of copy"
+					case "clear":
+						return "cleared"
+					}
+				}
+			}
+		}
+	}
+	return ""
 }
